@@ -128,6 +128,7 @@ class Program:
                     prenorm.column_accessors(tree)
             prenorm.propagate_constants({n: t for n, t in trees.items()})
             prenorm.REGISTRY = prenorm.build_registry(trees)
+            prenorm.NAMEDTUPLES = prenorm.collect_namedtuples(trees)
             for t in trees.values():
                 prenorm.normalize_calls(t)
         from .idioms import normalize_loops
@@ -153,13 +154,25 @@ class Program:
                 continue
             for q, lst in m.all_functions.items():
                 for fn in lst:
-                    if normalize_function(fn):
-                        self.tempfree.append("%s.%s" % (mn, q))
+                    from . import prenorm as _pn
+                    if _pn.lower_namedtuples(fn):
+                        from .inline import _relink as _rl
+                        _rl(fn, getattr(fn, "_parent", None), m)
+                    from .tempfree import _coalesce_copies
+                    for _round in range(3):
+                        if not normalize_function(fn):
+                            break
+                        if _round == 0:
+                            self.tempfree.append("%s.%s" % (mn, q))
                         # substitution can expose idioms (x = np.unique(ids); x.size): normalise again
-                        from .idioms import normalize
+                        from .idioms import normalize, _flatten
                         from .inline import _relink
                         from .prenorm import normalize_calls
-                        fn.body = [normalize(normalize_calls(st)) for st in fn.body]
+                        fn.body = _flatten([normalize(normalize_calls(st)) for st in fn.body])
+                        _relink(fn, getattr(fn, "_parent", None), m)
+                        # ... and copies that only became visible now (n = (a, b)[1] -> n = b)
+                        if not _coalesce_copies(fn):
+                            break
                         _relink(fn, getattr(fn, "_parent", None), m)
 
     def _inline_new_helpers(self):
@@ -176,7 +189,11 @@ class Program:
                 for fn in lst:
                     new = inl.inline_function(fn, mn)
                     if new is not fn:
-                        fn.body = new.body
+                        from .idioms import normalize
+                        from .prenorm import normalize_calls
+                        fn.body = [normalize(normalize_calls(st)) for st in new.body]
+                        from .idioms import _flatten
+                        fn.body = _flatten(fn.body)
                         _relink(fn, getattr(fn, "_parent", None), m)
                         self.inlined.append("%s.%s" % (mn, q))
         # a helper whose every call site was inlined is analysed in the context of its callers only
@@ -198,6 +215,7 @@ class Program:
         for (hm, hq), hf in helpers.items():
             if inl.used.get((hm, hq), 0) > 0 and hq.split(".")[-1] not in remaining:
                 self.absorbed.add((hm, hq))
+        self.absorbed |= inl.absorbed_local
 
     def module(self, name):
         if name not in self.modules:
